@@ -21,6 +21,15 @@ def plan(tier):
     return 600 if tier == 'quick' else 10000
 
 
+# second workload: the UDF images the repository's own tests master (harness/suite.py)
+SUITE_TIERS = ('quick', 'thorough')
+
+
+def suite_oracle(data):
+    u = iudf.decode(data)
+    return [{'key': k, 'detail': d} for k, d in u.problems] if u.present else []
+
+
 def norm_target(t):
     """UDF path components cannot express empty components: 'a//b' and 'dir/'
     denote the same path as 'a/b' and 'dir'."""
@@ -122,6 +131,9 @@ def run_ops(cfg, ops, seed, counters, ops2=None, virtual=False):
 
 
 def run_case(i, seed, tier):
+    if i >= plan(tier):
+        from harness import suite
+        return suite.run_slot(PROPERTY, i - plan(tier), suite_oracle)
     counters = {}
     cs = seed * 1000003 + i
     g = Gen(cs)
@@ -195,6 +207,9 @@ def run_case(i, seed, tier):
 
 
 def replay(doc):
+    if doc.get('suite_image'):
+        from harness import suite
+        return suite.replay(doc, suite_oracle)
     cfg, ops, seed = common.doc_cfg_ops(doc)
     ops2 = driver.ops_from_json(doc.get('ops2') or [])
     vio, _ = run_ops(cfg, ops, seed, {}, ops2 or None, doc.get('virtual', False))
